@@ -3,6 +3,7 @@ import Nervus.Driver.OKey
 import Nervus.Driver.ExtId
 import Nervus.Driver.Capi
 import Nervus.Driver.Capix
+import Nervus.Driver.Crash
 open Nervus.Driver
 
 /-- stream registry: one line per stream (kept one-per-line so that merges are unions) -/
@@ -11,7 +12,8 @@ def streams : List (String × Stream) := [
   ("extid", ExtIdStream.stream),
   ("capi", CapiStream.stream),
   ("capiryw", CapiStream.streamRyw),
-  ("capix", CapixStream.stream)
+  ("capix", CapixStream.stream),
+  ("crash", CrashStream.stream)
 ]
 
 def main (args : List String) : IO UInt32 := do
